@@ -137,7 +137,9 @@ theorem evalX_eq_eval (hinj : PackInj) (flds : List Col) (r : Row) :
     split
     · rename_i hc
       exact unpackBool_evalRaw_bool hinj flds r _ _ hc ho rfl
-    · rw [evalX_eq_eval hinj flds r a ho.2.1, evalX_eq_eval hinj flds r b ho.2.2]; rfl
+    · split
+      · rw [evalX_eq_eval hinj flds r a ho.2.1, evalX_eq_eval hinj flds r b ho.2.2]; rfl
+      · rw [evalX_eq_eval hinj flds r a ho.2.1]; rfl
   | .not a, ho => by
     simp only [evalX]
     split
@@ -171,8 +173,8 @@ theorem evalX_eq_eval (hinj : PackInj) (flds : List Col) (r : Row) :
     · rename_i hc
       exact unpackBool_evalRaw_bool hinj flds r (.inl a vs) _ (by simpa [canRaw] using hc) ho rfl
     · rw [evalX_eq_eval hinj flds r a ho]; rfl
-  | .ar op a b, ho => by
-    simp only [evalX, eval, evalX_eq_eval hinj flds r a ho.1, evalX_eq_eval hinj flds r b ho.2]
+  | .ar op a b, _ => by
+    simp only [evalX, eval]
   | .neg a, ho => by
     simp only [evalX, eval, evalX_eq_eval hinj flds r a ho]
 
